@@ -216,9 +216,14 @@ class Check(object):
         for ur, o, r in rows:
             if o.name in open_names and r["verdict"] != "proved":
                 first_reason.setdefault(o.name, "%s %s" % (r["verdict"], r.get("reason", "")))
+        t_start = time.time()
+        budget = 180 if self.tier == "quick" else 900        # the search for a counter-model is best effort: what it leaves open falls under the lock policy
         for k in range(1, self.max_scope + 1):
             remaining = [n for n in open_names if n not in refuted]
             if not remaining:
+                break
+            if time.time() - t_start > budget:
+                self.say("note: finite-scope search stopped after %d s (scope %d not tried)" % (budget, k))
                 break
             units = [u for u in g["units"] if "%s::%s" % u in open_units]
             lemmas = [l for l in g.get("lemmas", []) if "lemma::" + l["name"] in open_units]
